@@ -204,7 +204,7 @@ let run_case (f : string array) : string =
        let buf = if Array.length f > 4 && f.(4) <> "nil" then Some (unhex f.(4)) else None in
        dec_res hx (i_DecodeString d (unhex init) buf)
      | _ -> Driver2.dec_case f)
-  | _ -> Driver2.run_case f
+  | _ -> (match Driver_fp.run_case f with Some r -> r | None -> Driver2.run_case f)
 
 let () =
   let out = Buffer.create (1 lsl 16) in
